@@ -124,6 +124,32 @@ def face(tk):
     return '(%s, %s, %s)' % (ns, ow, nb)
 
 
+def oface(tk):
+    ns = natlist(tk)
+    ow = nat(tk)
+    nb = zint(tk)
+    nm = int(tk.nx())
+    return '(%s, %s, %s, %s)' % (ns, ow, nb, ('None' if nm < 0 else '(Some %d%%nat)' % nm))
+
+
+def oface_in(tk):
+    ns = natlist(tk)
+    ow = nat(tk)
+    nb = zint(tk)
+    nm = int(tk.nx())
+    return '(SplipyModel.Model.OFoam.mkFace %s %s %s %s)' % (ns, ow, nb, ('None' if nm < 0 else '(Some %d%%nat)' % nm))
+
+
+def oblock(tk):
+    return '(%s, %s, %s)' % (nat(tk), nat(tk), nat(tk))
+
+
+def ofoam_res(tk):
+    fs = lst(oface)(tk)
+    bl = lst(oblock)(tk)
+    return '(%s, %s, %s, %s)' % (fs, bl, nat(tk), nat(tk))
+
+
 def catres(tk):
     counts = natlist(tk)
     bnd = lst(natlist)(tk)
@@ -201,6 +227,12 @@ TABLE = {
                     'map (fun f => (map (fun p => [fst (fst p); snd (fst p); snd p]) (SplipyModel.Model.Faces.nodes f), SplipyModel.Model.Faces.owner f, '
                     'match SplipyModel.Model.Faces.neighbor f with Some n => Z.of_nat n | None => (-1)%Z end)) (x_patch_faces {0} ({1}, {2}, {3}))',
                     lst(face)),
+    'edge_loop': ([q, q, lst(pair(qlist, qlist))], 'q_edge_loop {0} {1} {2}', res(lst(pair(nat, boo)))),
+    'right_hand': ([q, q, obj], 'q_obj_right_hand {0} {1} {2}', res(boo)),
+    'ofoam': ([lst(oface_in)],
+              'let o := x_ofoam_order {0} in (map (fun f => (SplipyModel.Model.OFoam.f_nodes f, SplipyModel.Model.OFoam.f_owner f, SplipyModel.Model.OFoam.f_neighbor f, SplipyModel.Model.OFoam.f_name f)) o, '
+              'map (fun b => (SplipyModel.Model.OFoam.b_name b, SplipyModel.Model.OFoam.b_nfaces b, SplipyModel.Model.OFoam.b_start b)) (x_ofoam_blocks o), x_ofoam_declared o, x_ofoam_ninternal o)',
+              ofoam_res),
     'cell_numbers': ([lst(triple_nat)], 'let r := x_cell_numbers_model {0} in (snd r, fst r)', pair(nat, lst(natlist))),
     'catalogue': ([nat, lst(natlist)], 'x_catalogue {0} {1}', catres),
     'cat_lookup': ([nat, lst(natlist), natlist], 'x_cat_lookup {0} {1} {2}', opt(natlist)),
